@@ -54,10 +54,32 @@ func (l *vFakeLister) Error() error              { return nil }
 
 // vRecSub records what the controller hands to its subscription.
 type vRecSub struct {
-	log chan Event
+	log   chan Event
+	cache CacheReader
 }
 
-func (s *vRecSub) send(ev Event) error    { s.log <- ev; return nil }
+func (s *vRecSub) send(ev Event) error {
+	// C05: by the time an event is handed to subscribers the cache is at least as new
+	if s.cache != nil {
+		o := ev.Resource()
+		g, err := s.cache.Get(o.GetNamespace(), o.GetName())
+		if err == nil {
+			if ev.Type() == EventTypeDelete {
+				if g != nil {
+					zzverif.Assert(zzverif.AtoiVal(g.GetResourceVersion()) >= zzverif.AtoiVal(o.GetResourceVersion()), "C05/cache-not-older")
+				}
+			} else {
+				zzverif.Assert(g != nil, "C05/cache-not-older")
+				if g != nil {
+					zzverif.Assert(zzverif.AtoiVal(g.GetResourceVersion()) >= zzverif.AtoiVal(o.GetResourceVersion()), "C05/cache-not-older")
+				}
+			}
+			zzverif.Reach("C05/cache-checked")
+		}
+	}
+	s.log <- ev
+	return nil
+}
 func (s *vRecSub) Cache() CacheReader     { return nil }
 func (s *vRecSub) Ready() <-chan struct{} { return nil }
 func (s *vRecSub) Events() <-chan Event   { return nil }
@@ -92,6 +114,7 @@ func newCtlEnv(bufsz int) *vCtlEnv {
 		ctx:          ctx,
 	}
 	e.w.c = e.c
+	e.rs.cache = e.c.cache
 	// like the real collaborators, the fakes stop when the controller shuts down
 	go func() {
 		<-lc.ShuttingDown()
